@@ -485,6 +485,72 @@ func (d *c17DS) inline(w *osm.Way, all bool) {
 	d.wayCls["inline"] = true
 }
 
+// versionNodes makes w look like a way from an annotated / history-style source: every way node
+// carries a version (and some a changeset id); only a random part of those whose node is present
+// and located also carry the location. A way node with a version but without coordinates is
+// still resolvable only through the node element of the data set.
+func (d *c17DS) versionNodes(w *osm.Way) {
+	r := d.r
+	for i := range w.Nodes {
+		w.Nodes[i].Version = r.Range(1, 9)
+		if r.Bool() {
+			w.Nodes[i].ChangesetID = osm.ChangesetID(r.Int64Range(1, 1<<30))
+		}
+		if n := d.nodeByID(int64(w.Nodes[i].ID)); n != nil && (n.Lat != 0 || n.Lon != 0) && r.Chance(0.4) {
+			w.Nodes[i].Lat, w.Nodes[i].Lon = n.Lat, n.Lon
+		}
+	}
+	d.wayCls["versioned-way-nodes"] = true
+}
+
+// c17WayNodeMatrix enumerates ways whose way nodes all carry a version while the middle one has
+// no location: middle node element present (located) / absent x the other way nodes with /
+// without own coordinates x line / area; the way is also the only member of a route.
+func c17WayNodeMatrix() []*c17DS {
+	var out []*c17DS
+	for _, present := range []bool{true, false} {
+		for _, othersInline := range []bool{true, false} {
+			for _, area := range []bool{false, true} {
+				label := fmt.Sprintf("wnmatrix/middle-present=%v/others-inline=%v/area=%v", present, othersInline, area)
+				d := c17NewDS(1, label)
+				d.keySuffix = map[osm.WayID]string{}
+				pos := map[int64]c17Pt{1: {8.1, 47.1}, 2: {8.2, 47.25}, 3: {8.3, 47.3}, 4: {8.15, 47.35}}
+				refs := []int64{1, 2, 3}
+				tags := osm.Tags{{Key: "highway", Value: "path"}}
+				if area {
+					refs = []int64{1, 2, 3, 4, 1}
+					tags = osm.Tags{{Key: "building", Value: "yes"}}
+				}
+				for id := int64(1); id <= 4; id++ {
+					if id == 2 && !present {
+						continue
+					}
+					if id == 4 && !area {
+						continue
+					}
+					d.o.Nodes = append(d.o.Nodes, &osm.Node{ID: osm.NodeID(id), Lon: pos[id][0], Lat: pos[id][1], Version: 2})
+				}
+				w := &osm.Way{ID: 10, Version: 4, Tags: tags}
+				for _, id := range refs {
+					wn := osm.WayNode{ID: osm.NodeID(id), Version: 2, ChangesetID: 77}
+					if id != 2 && othersInline {
+						wn.Lon, wn.Lat = pos[id][0], pos[id][1]
+					}
+					w.Nodes = append(w.Nodes, wn)
+				}
+				d.o.Ways = osm.Ways{w}
+				d.area[w.ID] = area
+				d.keySuffix[w.ID] = "/" + label
+				d.o.Relations = osm.Relations{{ID: 100, Version: 1, Tags: osm.Tags{{Key: "type", Value: "route"}, {Key: "route", Value: "hiking"}},
+					Members: osm.Members{{Type: osm.TypeWay, Ref: 10}}}}
+				d.wayCls["versioned-way-nodes"], d.relCls["route"] = true, true
+				out = append(out, d)
+			}
+		}
+	}
+	return out
+}
+
 func (d *c17DS) locatedIDs() []int64 {
 	var ids []int64
 	for _, n := range d.o.Nodes {
@@ -1095,6 +1161,12 @@ func c17Random(seed uint64, size, maxRouteWays, routes int) *c17DS {
 	}
 	for i := 0; i < routes; i++ {
 		d.networkRoute(maxRouteWays)
+	}
+	// some ways of any kind come from a source that annotates way nodes with versions
+	for _, w := range d.o.Ways {
+		if len(w.Nodes) > 0 && r.Chance(0.12) {
+			d.versionNodes(w)
+		}
 	}
 	o := d.o
 	r.Shuffle(len(o.Nodes), func(i, j int) { o.Nodes[i], o.Nodes[j] = o.Nodes[j], o.Nodes[i] })
@@ -2228,7 +2300,7 @@ func (u *c17Run) checkWayGeometry(w *osm.Way, gt string, coords any, ex map[stri
 			}
 		}
 		if match < 0 {
-			u.viol("C17/way/line-coords", fmt.Sprintf("way %d: line coordinates %v, want the resolvable node coordinates in order %v", id, coords, readings[0]), ex)
+			u.viol("C17/way/line-coords"+f.d.keySuffix[w.ID], fmt.Sprintf("way %d: line coordinates %v, want the resolvable node coordinates in order %v", id, coords, readings[0]), ex)
 		} else if f.zeroKinds[id] != 0 {
 			u.res.Put("zero_coordinate_way_node_reading", fmt.Sprintf("kinds=%d:%s", f.zeroKinds[id], c17ModeNames[modes[match]]))
 		}
@@ -2259,7 +2331,7 @@ func (u *c17Run) checkWayGeometry(w *osm.Way, gt string, coords any, ex map[stri
 			}
 		}
 		if match < 0 {
-			u.viol("C17/way/area-cycle", fmt.Sprintf("way %d: polygon ring %v is not the cycle of the resolvable node coordinates %v", id, ring, readings[0]), ex)
+			u.viol("C17/way/area-cycle"+f.d.keySuffix[w.ID], fmt.Sprintf("way %d: polygon ring %v is not the cycle of the resolvable node coordinates %v", id, ring, readings[0]), ex)
 			return
 		}
 		if wd, exact := c17Winding(c17Open(ring)); wd != 0 {
@@ -2698,6 +2770,12 @@ func c17Exec(c fw.Case) *fw.Result {
 		}
 		d := c17Random(c.Seed, int(c.Int("size")), rw, int(c.Int("routes")))
 		c17Check(res, d)
+	case "wnmatrix":
+		ds := c17WayNodeMatrix()
+		for _, d := range ds {
+			c17Check(res, d)
+		}
+		res.Sample = map[string]any{"datasets": len(ds), "first": res.Sample}
 	case "tinytable":
 		ds := c17TinyTable()
 		for _, d := range ds {
@@ -2764,7 +2842,7 @@ func init() {
 				cs = append(cs, fw.Case{Kind: "random", Seed: gen.Sub(seed, "c17", i), P: map[string]int64{"size": size, "rw": rw, "routes": routes}})
 			}
 			cs = append(cs, c17InvalidCases(tier, seed)...)
-			cs = append(cs, fw.Case{Kind: "tinytable", Seed: 1})
+			cs = append(cs, fw.Case{Kind: "tinytable", Seed: 1}, fw.Case{Kind: "wnmatrix", Seed: 1})
 			tiny := 40
 			if tier == "thorough" {
 				tiny = 1000
